@@ -8,7 +8,7 @@ CONSTANTS Mode, Emit,
           \* C16
           Revs, B64s, Jsonps, AEs, Thresholds, Flags, Sizes, Kinds, Js,
           \* C17
-          Cookies, HsTransports, Policies, Creds, ReqOrigins, Preflights, Continues, Statuses
+          Cookies, HsTransports, Policies, Creds, ReqOrigins, Preflights, Continues, Statuses, OuterVarys
 VARIABLE cell
 
 \* ---------------------------------------------------------------- C16
@@ -23,6 +23,15 @@ AETokens(ae) ==
       [] ae = "identity" -> <<[c |-> "identity", q0 |-> FALSE]>>
       [] ae = "gzipq0"   -> <<[c |-> "gzip", q0 |-> TRUE]>>
       [] ae = "mixedq"   -> <<[c |-> "br", q0 |-> FALSE], [c |-> "gzip", q0 |-> TRUE]>>
+      \* RFC 9110 12.4.2: qvalue = ( "0" [ "." 0*3DIGIT ] ) / ( "1" [ "." 0*3("0") ] ): every spelling of zero refuses the coding
+      [] ae = "gzipq00"     -> <<[c |-> "gzip", q0 |-> TRUE]>>                                  \* gzip;q=0.0
+      [] ae = "q000deflate" -> <<[c |-> "gzip", q0 |-> TRUE], [c |-> "deflate", q0 |-> FALSE]>> \* gzip;q=0.000, deflate
+      [] ae = "gzipq0dot"   -> <<[c |-> "gzip", q0 |-> TRUE]>>                                  \* gzip;q=0.
+      [] ae = "gzipq0001"   -> <<[c |-> "gzip", q0 |-> FALSE]>>                                 \* gzip;q=0.001 (not zero)
+      [] ae = "ows"         -> <<[c |-> "gzip", q0 |-> TRUE]>>                                  \* gzip ; q=0 (optional whitespace)
+      [] ae = "upper"       -> <<[c |-> "gzip", q0 |-> FALSE]>>                                 \* GZIP (codings are case-insensitive)
+      [] ae = "starq0"      -> <<[c |-> "*", q0 |-> TRUE], [c |-> "br", q0 |-> TRUE]>>          \* *;q=0, br;q=0.00: nothing is acceptable
+      [] ae = "qempty"      -> <<[c |-> "gzip", q0 |-> FALSE]>>                                 \* gzip;q= (malformed: left open, must not crash)
 Supported == {"gzip", "deflate", "br", "zstd"}
 Named(ae) == {AETokens(ae)[i].c : i \in {k \in 1..Len(AETokens(ae)) : ~AETokens(ae)[k].q0}} \cap Supported
 \* threshold: "off" = compression disabled, otherwise a byte count
@@ -40,6 +49,12 @@ JChars(j) == CASE j = "seven"  -> <<"7">>
                [] j = "script" -> <<"<", "/", "s", "c", "r", "i", "p", "t", ">", "9">>
                [] j = "empty"  -> <<>>
                [] j = "inject" -> <<"1", ")", ";", "a", "l", "e", "r", "t", "(", "1">>
+               [] j = "neg1"   -> <<"-", "1">>
+               [] j = "plus7"  -> <<"+", "7">>
+               [] j = "zeros"  -> <<"0", "0", "7">>
+               [] j = "float"  -> <<"1", ".", "5">>
+               [] j = "hex"    -> <<"0", "x", "1", "0">>
+               [] j = "huge"   -> <<"9", "9", "9", "9", "9", "9", "9", "9", "9", "9", "9", "9", "9", "9", "9", "9", "9", "9", "9", "9", "9", "9">>
 Digits(j) == SelectSeq(JChars(j), IsDigit)
 
 RespObsOK(c, o) ==
@@ -79,6 +94,7 @@ CorsObsOK(c, o) ==
          /\ (c.policy = "star" => o.acao = "*")
          /\ (c.policy \in {"list", "regexp", "true"} /\ Allowed(c.policy, c.origin) /\ c.origin # "absent" => o.acaoIsRequestOrigin)
          /\ (DependsOnRequest(c.policy) => o.varyOrigin)                                      \* Vary: Origin whenever it depends on the request
+         /\ o.outerKept                                                                       \* .. and what the application had put there stays
          /\ (o.acac = "true") = c.creds                                                       \* credentials header only when configured
          /\ IF c.preflight
             THEN IF c.continue THEN TRUE                                                      \* passed on: the engine answers as for any request
@@ -98,10 +114,13 @@ CookieCells == {[cookie |-> k, transport |-> t, step |-> st, hold |-> h] : k \in
 ValidCookie(c) == (c.transport = "polling" \/ c.step = "handshake") /\ (c.hold # "none" => c.step = "handshake" /\ c.transport = "polling")
 \* step: "first" = the request is a handshake (or a preflight); "bigpoll" = a later poll of the session whose response is large
 \* enough to be compressed (the transport adds headers of its own to such a response)
-CorsCells == {[policy |-> p, creds |-> cr, origin |-> o, preflight |-> pf, continue |-> cn, status |-> st, step |-> sp] :
-                p \in Policies, cr \in Creds, o \in ReqOrigins, pf \in Preflights, cn \in Continues, st \in Statuses, sp \in {"first", "bigpoll"}}
+\* outer: a Vary header an enclosing handler of the application has already put on the response ("none", "ae" = Accept-Encoding,
+\* "xorig" = X-Original-Host - a field whose name merely CONTAINS "origin" -, "lower" = origin, spelt in lower case)
+CorsCells == {[policy |-> p, creds |-> cr, origin |-> o, preflight |-> pf, continue |-> cn, status |-> st, step |-> sp, outer |-> ov] :
+                p \in Policies, cr \in Creds, o \in ReqOrigins, pf \in Preflights, cn \in Continues, st \in Statuses, sp \in {"first", "bigpoll"},
+                ov \in OuterVarys}
 ValidCors(c) == (~c.preflight => ~c.continue /\ c.status = 204) /\ (c.policy = "none" => ~c.creds /\ ~c.continue /\ c.status = 204 /\ ~c.preflight)
-                /\ (c.step = "bigpoll" => ~c.preflight)
+                /\ (c.step = "bigpoll" => ~c.preflight) /\ (c.outer # "none" => c.step = "first" /\ c.status = 204)
 Init == cell \in (CASE Mode = "resp" -> {c \in RespCells : ValidResp(c)}
                     [] Mode = "cookie" -> {c \in CookieCells : ValidCookie(c)}
                     [] Mode = "cors" -> {c \in CorsCells : ValidCors(c)})
